@@ -468,7 +468,7 @@ def run(rep):
                     d['mode'] = m
                     extra.append(d)
     cases += rnd + extra
-    cases += list(gen_obs(rng, 300 if thorough else 40))
+    cases += list(gen_obs(rng, 600 if thorough else 160))
     rep.rule = ('bin helpers on random strictly monotone arrays (both orders, 2..N points, spacings 1e-6..1e3); '
                 'wave_range / pixel_range exhaustively on all centre arrays of 2..4 points with steps in {1,2} '
                 '(+3 irregular/descending/half-step arrays) x every centre, edge, quarter point and just-outside point '
